@@ -224,6 +224,67 @@ pub fn early_case(i: u64, seed: u64, offsets: &[u32]) -> Scenario {
     sc
 }
 
+/// the tick in which peer 0 of base config `c` reports the remote player's address Synchronized while its
+/// spectator cannot be reached at all
+fn remote_synced_tick(c: u64, seed: u64) -> u32 {
+    let mut sc = base(c, seed ^ 0x9e57);
+    sc.specs.clear();
+    sc.specs.push(SpecSpec { host: 0, max_behind: 10, catchup: 2, slow: 0, window: sc.max_pred });
+    sc.ops.push(Op::Outage { tick: 0, from: spec_addr(0), to: peer_addr(0), len_ms: 60_000 });
+    sc.ops.push(Op::Outage { tick: 0, from: peer_addr(0), to: spec_addr(0), len_ms: 60_000 });
+    sc.ticks = 90;
+    sc.settle = 0;
+    let out = run(&sc, &RunOpts::default());
+    let a = peer_addr(1);
+    out.peers[0].events.iter().find_map(|e| if matches!(e.1, Ev::Synchronized { addr } if addr == a) { Some((e.0.saturating_sub(out.t0_ms) / 16) as u32) } else { None }).unwrap_or(90)
+}
+
+/// The remote player dies (or is dropped with disconnect_player) while the session is still Synchronizing because
+/// its spectator cannot be reached yet; the spectator's handshake completes only after the drop AND after the
+/// dropped endpoint's 5 s shutdown timer: the survivor must then start and play on alone.
+pub fn prestart_case(i: u64, seed: u64) -> Scenario {
+    let c = i % NBASE;
+    let v = i / NBASE;
+    let api = v % 2 == 1;
+    let st = remote_synced_tick(c, seed);
+    let mut sc = base(c, seed ^ 0x9e57);
+    sc.specs.clear();
+    sc.specs.push(SpecSpec { host: 0, max_behind: 10, catchup: 2, slow: 0, window: sc.max_pred });
+    let kt = st + 2 + (mix(seed, i) % 10) as u32;
+    let dark_ms = kt * 16 + sc.timeout_ms + [300u32, 4000, 5600, 7000][((v / 2) % 4) as usize];
+    sc.ops.push(Op::Outage { tick: 0, from: spec_addr(0), to: peer_addr(0), len_ms: dark_ms });
+    sc.ops.push(Op::Outage { tick: 0, from: peer_addr(0), to: spec_addr(0), len_ms: dark_ms });
+    if api {
+        let handle = sc.peers[0].locals;
+        sc.ops.push(Op::Disconnect { tick: kt, peer: 0, handle });
+    }
+    sc.ops.push(Op::Kill { tick: kt, peer: 1 });
+    sc.ops.sort_by_key(|o| o.tick());
+    sc.ticks = dark_ms / 16 + 200;
+    sc.settle = 100;
+    sc
+}
+
+pub fn eval_prestart(sc: &Scenario) -> CaseResult {
+    let mut r = eval(sc);
+    let out = run(sc, &RunOpts::default());
+    let so = &out.peers[0];
+    if r.violation.is_none() {
+        let vh: Vec<usize> = (0..out.owners.len()).filter(|h| out.owners[*h] == 1).collect();
+        let (pp, sp) = progress_in_tail(&out, 60);
+        if !so.running {
+            r.violation = Some(("C07.never_started".into(), "the remote was dropped while the session was still waiting for its spectator; the spectator has synchronized since, but the session is still not Running".into()));
+        } else if !vh.iter().all(|h| so.cs[*h].0) {
+            r.violation = Some(("C07.not_disconnected".into(), format!("peer0: the dead peer's players are not marked disconnected at the end: {:?}", so.cs)));
+        } else if pp[0] < 3 || sp.iter().any(|d| *d < 3) {
+            r.violation = Some(("C07.survivor_stuck".into(), format!("after the late start the survivor advanced {} and its spectator {:?} frames in the last 60 ticks", pp[0], sp)));
+        }
+    }
+    r.nontrivial = so.running && so.cs.iter().any(|c| c.0);
+    r.classes.push("dropped_before_the_session_started");
+    r
+}
+
 pub fn run_prop(ctx: &Ctx) -> PropReport {
     let mut rep = PropReport::new("C07", "fault_enumeration");
     let seed = ctx.seed;
@@ -243,6 +304,9 @@ pub fn run_prop(ctx: &Ctx) -> PropReport {
     rep.part(|| run_enum(ctx, "early_death",
         "the same base configs; the remote dies (timeout) or is dropped with disconnect_player within -3..=+6 ticks of the tick in which the survivor becomes Running, with the last 0/2 (quick) 0..=3 (thorough) ticks of its packets lost: drops before the first input of the remote has arrived, after one or two inputs, with the survivor already several predicted frames ahead; same oracle (cases in which the survivor never became Running carry no C07 obligation and count as trivial)",
         ne, move |i| early_case(i, seed, &eoffs), eval, true));
+    rep.part(|| run_enum(ctx, "death_before_start",
+        "the same base configs with a spectator that cannot be reached during the first seconds, so the session stays Synchronizing although the remote player's endpoint is synchronized; the remote dies (timeout) or is dropped with disconnect_player 2-11 ticks after that, and the spectator's link comes up 0.3 / 4 / 5.6 / 7 s after the drop (i.e. also after the dropped endpoint's 5 s shutdown timer): same oracle, and the survivor must then become Running, mark the player disconnected and advance, its spectator too",
+        NBASE * ctx.tier.pick(4, 8), move |i| prestart_case(i, seed), eval_prestart, false));
     rep.assumptions = vec!["timing is judged at poll granularity (the session can only notice a timeout when it is polled); polls every 16 ms".into()];
     rep
 }
